@@ -19,16 +19,18 @@ package t2j
 //@   requires kind: dest.typ != thrift.STRING
 //@   ensures short: isik(dest.typ) && old(p.Read) + tkw(dest.typ) > len(p.Buf) ==> r0 != nil
 //@   ensures ok: isik(dest.typ) && old(p.Read) + tkw(dest.typ) <= len(p.Buf) ==> r0 == nil && p.Read == old(p.Read) + tkw(dest.typ)
-//@   ensures klen: isik(dest.typ) && old(p.Read) + tkw(dest.typ) <= len(p.Buf) ==> len(*out) == old(len(*out)) + 2 + json.i64len(tkey(p.Buf, old(p.Read), dest.typ, self.opts.ByteAsUint8))
-//@   ensures quotes: isik(dest.typ) && old(p.Read) + tkw(dest.typ) <= len(p.Buf) ==> (*out)[old(len(*out))] == 0x22 && (*out)[len(*out)-1] == 0x22
-//@   ensures digits: isik(dest.typ) && old(p.Read) + tkw(dest.typ) <= len(p.Buf) ==> \
+//@   ensures local klen: isik(dest.typ) && old(p.Read) + tkw(dest.typ) <= len(p.Buf) ==> len(*out) == old(len(*out)) + 2 + json.i64len(tkey(p.Buf, old(p.Read), dest.typ, self.opts.ByteAsUint8))
+//@   ensures local quotes: isik(dest.typ) && old(p.Read) + tkw(dest.typ) <= len(p.Buf) ==> (*out)[old(len(*out))] == 0x22 && (*out)[len(*out)-1] == 0x22
+//@   ensures local digits: isik(dest.typ) && old(p.Read) + tkw(dest.typ) <= len(p.Buf) ==> \
 //@       forall k :: 0 <= k && k < json.i64len(tkey(p.Buf, old(p.Read), dest.typ, self.opts.ByteAsUint8)) ==> \
 //@       (*out)[old(len(*out)) + 1 + k] == json.i64dig(tkey(p.Buf, old(p.Read), dest.typ, self.opts.ByteAsUint8), k)
 //@   ensures other: dest.typ != thrift.I08 && dest.typ != thrift.I16 && dest.typ != thrift.I32 && dest.typ != thrift.I64 ==> r0 != nil
 //@   ensures prefix: forall i :: 0 <= i && i < old(len(*out)) ==> (*out)[i] == old((*out)[i])
+//@   ensures mono: len(*out) >= old(len(*out))
+//@   ensures mem: (same(*out, old(*out)) && cap(*out) == old(cap(*out))) || fresh(*out)
 //@   modifies *out, (*out)[len(*out):cap(*out)], p.Read
 
-// doRecurse, scalar kinds (containers and strings are excluded by precondition — written as disequalities so that
+// doRecurse, scalar kinds, and maps keyed by a kind that has no JSON key form (other containers and strings are excluded by precondition — written as disequalities so that
 // their branches are pruned): the number handed to the formatter is the big-endian value of the field's type,
 // a BYTE as 0..255 under ByteAsUint8 and as -128..127 otherwise; an i64 is quoted under Int642String; a double is
 // formatted from exactly its 64 bits; a bool becomes true / false.
@@ -37,22 +39,35 @@ package t2j
 //@   timeout 40
 //@   requires ptrs: self != nil && p != nil && out != nil && desc != nil && !samerg(out, p) && !samerg(out, *out) && !samerg(p, *out) && !samerg(desc, *out) && \
 //@       !samerg(self, *out) && !samerg(p.Buf, *out) && !samerg(desc, p) && !samerg(desc, out) && !samerg(self, out) && !samerg(self, p)
-//@   requires kind: desc.typ != thrift.STRING && desc.typ != thrift.STRUCT && desc.typ != thrift.LIST && desc.typ != thrift.SET && desc.typ != thrift.MAP
-//@   ensures short: (isik(desc.typ) || desc.typ == thrift.DOUBLE || desc.typ == thrift.BOOL) && old(p.Read) + ite(desc.typ == thrift.BOOL, 1, ite(desc.typ == thrift.DOUBLE, 8, tkw(desc.typ))) > len(p.Buf) ==> err != nil
-//@   ensures iok: isik(desc.typ) && old(p.Read) + tkw(desc.typ) <= len(p.Buf) ==> err == nil && p.Read == old(p.Read) + tkw(desc.typ)
-//@   ensures ilen: isik(desc.typ) && old(p.Read) + tkw(desc.typ) <= len(p.Buf) && !(desc.typ == thrift.I64 && self.opts.Int642String) ==> \
+//@   requires kind: desc.typ != thrift.STRING && desc.typ != thrift.STRUCT && desc.typ != thrift.LIST && desc.typ != thrift.SET
+//@   requires badkeymap: desc.typ == thrift.MAP ==> desc.key != nil && desc.elem != nil && !isik(desc.key.typ) && desc.key.typ != thrift.STRING && \
+//@       !samerg(desc.key, *out) && !samerg(desc.key, p) && !samerg(desc.key, out) && !samerg(desc.elem, *out) && !samerg(desc.elem, p) && !samerg(desc.elem, out)
+//@   ensures badkey: desc.typ == thrift.MAP && err == nil ==> int32(thrift.be32(p.Buf, old(p.Read)+2)) == 0     // a map keyed by a kind that has no JSON key form (bool, double, …) converts without error only when it is empty: the key converter's error is returned, not dropped
+//@   ensures mono: len(*out) >= old(len(*out))
+//@   ensures local short: (isik(desc.typ) || desc.typ == thrift.DOUBLE || desc.typ == thrift.BOOL) && old(p.Read) + ite(desc.typ == thrift.BOOL, 1, ite(desc.typ == thrift.DOUBLE, 8, tkw(desc.typ))) > len(p.Buf) ==> err != nil
+//@   ensures local iok: isik(desc.typ) && old(p.Read) + tkw(desc.typ) <= len(p.Buf) ==> err == nil && p.Read == old(p.Read) + tkw(desc.typ)
+//@   ensures local ilen: isik(desc.typ) && old(p.Read) + tkw(desc.typ) <= len(p.Buf) && !(desc.typ == thrift.I64 && self.opts.Int642String) ==> \
 //@       len(*out) == old(len(*out)) + json.i64len(tkey(p.Buf, old(p.Read), desc.typ, self.opts.ByteAsUint8))
-//@   ensures idigits: isik(desc.typ) && old(p.Read) + tkw(desc.typ) <= len(p.Buf) && !(desc.typ == thrift.I64 && self.opts.Int642String) ==> \
+//@   ensures local idigits: isik(desc.typ) && old(p.Read) + tkw(desc.typ) <= len(p.Buf) && !(desc.typ == thrift.I64 && self.opts.Int642String) ==> \
 //@       forall k :: 0 <= k && k < json.i64len(tkey(p.Buf, old(p.Read), desc.typ, self.opts.ByteAsUint8)) ==> \
 //@       (*out)[old(len(*out)) + k] == json.i64dig(tkey(p.Buf, old(p.Read), desc.typ, self.opts.ByteAsUint8), k)
-//@   ensures qlen: desc.typ == thrift.I64 && self.opts.Int642String && old(p.Read) + 8 <= len(p.Buf) ==> \
+//@   ensures local qlen: desc.typ == thrift.I64 && self.opts.Int642String && old(p.Read) + 8 <= len(p.Buf) ==> \
 //@       len(*out) == old(len(*out)) + 2 + json.i64len(int64(thrift.be64(p.Buf, old(p.Read)))) && (*out)[old(len(*out))] == 0x22 && (*out)[len(*out)-1] == 0x22
-//@   ensures dlen: desc.typ == thrift.DOUBLE && old(p.Read) + 8 <= len(p.Buf) ==> err == nil && p.Read == old(p.Read) + 8 && \
+//@   ensures local dlen: desc.typ == thrift.DOUBLE && old(p.Read) + 8 <= len(p.Buf) ==> err == nil && p.Read == old(p.Read) + 8 && \
 //@       len(*out) == old(len(*out)) + json.f64len(thrift.be64(p.Buf, old(p.Read)))
-//@   ensures ddigits: desc.typ == thrift.DOUBLE && old(p.Read) + 8 <= len(p.Buf) ==> forall k :: 0 <= k && k < json.f64len(thrift.be64(p.Buf, old(p.Read))) ==> \
+//@   ensures local ddigits: desc.typ == thrift.DOUBLE && old(p.Read) + 8 <= len(p.Buf) ==> forall k :: 0 <= k && k < json.f64len(thrift.be64(p.Buf, old(p.Read))) ==> \
 //@       (*out)[old(len(*out)) + k] == json.f64dig(thrift.be64(p.Buf, old(p.Read)), k)
-//@   ensures btrue: desc.typ == thrift.BOOL && old(p.Read) + 1 <= len(p.Buf) && p.Buf[old(p.Read)] == 1 ==> err == nil && len(*out) == old(len(*out)) + 4 && \
+//@   ensures local btrue: desc.typ == thrift.BOOL && old(p.Read) + 1 <= len(p.Buf) && p.Buf[old(p.Read)] == 1 ==> err == nil && len(*out) == old(len(*out)) + 4 && \
 //@       (*out)[old(len(*out))] == 0x74 && (*out)[old(len(*out))+1] == 0x72 && (*out)[old(len(*out))+2] == 0x75 && (*out)[old(len(*out))+3] == 0x65
-//@   ensures bfalse: desc.typ == thrift.BOOL && old(p.Read) + 1 <= len(p.Buf) && p.Buf[old(p.Read)] != 1 ==> err == nil && len(*out) == old(len(*out)) + 5 && (*out)[old(len(*out))] == 0x66
-//@   ensures prefix: forall i :: 0 <= i && i < old(len(*out)) ==> (*out)[i] == old((*out)[i])
+//@   ensures local bfalse: desc.typ == thrift.BOOL && old(p.Read) + 1 <= len(p.Buf) && p.Buf[old(p.Read)] != 1 ==> err == nil && len(*out) == old(len(*out)) + 5 && (*out)[old(len(*out))] == 0x66
+//@   ensures local prefix: forall i :: 0 <= i && i < old(len(*out)) ==> (*out)[i] == old((*out)[i])
 //@   modifies *out, (*out)[len(*out):cap(*out)], p.Read
+//@   loop 2
+//@     invariant first: i == 0 && !samerg(out, *out) && !samerg(p, *out) && !samerg(desc, *out) && !samerg(self, *out) && !samerg(p.Buf, *out) && \
+//@         !samerg(desc.key, *out) && !samerg(desc.elem, *out) && 0 <= p.Read && p.Read <= len(p.Buf)
+//@     invariant desc: desc.typ == thrift.MAP && desc.key == old(desc.key) && desc.elem == old(desc.elem) && desc.key.typ == old(desc.key.typ)
+//@     invariant input: same(p.Buf, old(p.Buf)) && len(p.Buf) == old(len(p.Buf)) && size == int(int32(thrift.be32(p.Buf, old(p.Read)+2))) && old(p.Read) + 6 <= len(p.Buf) && \
+//@         thrift.be32(p.Buf, old(p.Read)+2) == old(thrift.be32(p.Buf, p.Read+2))
+//@     invariant mem: len(*out) >= old(len(*out)) && ((same(*out, old(*out)) && cap(*out) == old(cap(*out))) || fresh(*out))
+//@     invariant prefix: forall j :: 0 <= j && j < old(len(*out)) ==> (*out)[j] == old((*out)[j])
+//@     decreases size - i
